@@ -39,7 +39,7 @@ fn set_training(net: &mut neurons::network::Network, on: bool) {
 
 /// The property's right-hand side, executed literally.
 pub fn reference_trainer(sc: &Scenario, epochs: i32) -> Trained {
-    let mut net = sc.net.build();
+    let mut net = sc.build();
     let objective = objective::Function::create(sc.net.objective.to_lib(), sc.net.clamp);
     let xs = tensors(&sc.net, &sc.train.x);
     let ys = targets(&sc.train.y);
@@ -89,7 +89,7 @@ pub fn reference_trainer(sc: &Scenario, epochs: i32) -> Trained {
 
 fn learn_under_test(sc: &Scenario, ctx: &mut Ctx) -> Trained {
     ctx.op();
-    let mut net = sc.net.build();
+    let mut net = sc.build();
     let xs = tensors(&sc.net, &sc.train.x);
     let ys = targets(&sc.train.y);
     let xr: Vec<&tensor::Tensor> = xs.iter().collect();
@@ -137,8 +137,8 @@ impl Property for C04 {
 
     fn runs(&self, tier: Tier) -> u64 {
         match tier {
-            Tier::Quick => 4000,
-            Tier::Thorough => 120000,
+            Tier::Quick => 20000,
+            Tier::Thorough => 4000000,
         }
     }
 
